@@ -40,6 +40,12 @@ Patterns
     repeat       the SAME argument objects are used for three successive calls; every answer (or
                  exception type) must equal the answer of one call on pristine, separately built
                  arguments, and the arguments are compared bit for bit at the end
+    cb-view      every user callback returns a row of a caller-owned table (refreshed with the values of each
+                 call); the rows around it are snapshotted as well
+    edit         identity-keyed memoisation: after one call every caller float array is edited IN PLACE
+                 (`buf *= 0.875`), then the call is repeated with the same objects; the second answer must equal
+                 the answer on separately built arguments edited the same way before their first use, and the
+                 edited contents must be unchanged afterwards
     raises       one argument is made unacceptable (last element / row dropped; a NaN put in) so that
                  the call ends in an exception part-way: nothing may have been written by then
 
@@ -70,10 +76,12 @@ import zlib
 
 import numpy as np
 
-PATTERNS = ["rw", "ro", "alias", "list", "int-array", "view", "kind", "repeat", "raises", "cb-identity", "cb-cached", "cb-kind"]
+PATTERNS = ["rw", "ro", "alias", "list", "int-array", "view", "kind", "repeat", "edit", "raises", "cb-identity", "cb-cached",
+            "cb-view", "cb-kind"]
 # in the quick budget the other patterns run on every other entry (alternating with the seed and the pattern, so that
 # two consecutive seeds cover everything); every pattern on every entry in the thorough / large budgets
-ALWAYS_IN_QUICK = {"rw", "ro", "cb-identity", "cb-cached"}
+HEAVY_PATTERNS = {"kind", "repeat", "edit", "raises", "cb-kind"}
+ALWAYS_IN_QUICK = {"rw", "ro", "cb-identity", "cb-cached", "cb-view"}
 
 
 class Mismatch(AssertionError):
@@ -159,6 +167,8 @@ class _State:
         self.aliased = []      # descriptions
         self.protect_cb = False
         self.flag_log = []     # (ndarray, original writeable)
+        self.cb_bases = []     # (path, table) of cb-view
+        self.cb_base_snaps = {}  # id(table) -> snapshot taken when the callback last refreshed it
         self.converted = []    # descriptions of integer sequences re-typed by list / int-array
         self.nslots = 0        # number of integer-sequence arguments
 
@@ -371,6 +381,17 @@ class _CBWrapper:
                         out = out + t(1e-3j)
                     if st.sub == "alternating" and st.cb_calls % 2:
                         out = np.array(out)   # 0-d array
+        elif isinstance(real, np.ndarray) and st.pattern == "cb-view" and real.dtype.kind in "fiuc":
+            key = (self.path, real.shape, real.dtype.str)
+            if key not in st.cb_cache:
+                table = np.full((3,) + real.shape, 7, dtype=real.dtype)
+                st.cb_cache[key] = table
+                if len(st.cb_records) < 200000:
+                    st.cb_bases.append((self.path, table))
+            table = st.cb_cache[key]
+            table[1] = real            # the caller's own code refreshes its buffer
+            st.cb_base_snaps[id(table)] = _snap(table)
+            out = table[1]
         elif isinstance(real, np.ndarray) and st.pattern == "cb-cached":
             key = (self.path, real.shape, real.dtype.str)
             if key not in st.cb_cache:
@@ -645,11 +666,13 @@ def _apply_kind(kwargs, st: _State):
     for parent, k, v, p in _array_slots(kwargs, st):
         if v.size == 0:
             continue
-        if st.sub == "float32":
+        if st.sub in ("float32", "float16", "longdouble", "int"):
             if v.dtype != np.float64:
                 continue
-            parent[k] = v.astype(np.float32)
-            st.converted.append(f"{p}: float32")
+            with np.errstate(all="ignore"):
+                parent[k] = (np.rint(v * 8).astype(np.int64) if st.sub == "int"
+                             else v.astype({"float32": np.float32, "float16": np.float16, "longdouble": np.longdouble}[st.sub]))
+            st.converted.append(f"{p}: {st.sub}")
         elif v.ndim == 1:
             buf = v[::-1].copy()
             parent[k] = buf[::-1]
@@ -744,7 +767,7 @@ def _execute(ent: Entry, pattern: str, seed: int, sub: str = "same", protect: bo
     has_cb = bool(st.callbacks)
     res = {"applicable": True, "violations": [], "sig": [], "exc": None, "nontrivial": False,
            "readonly_exc": None, "aliased": [], "cb_calls": 0, "nslots": 0}
-    if pattern in ("cb-identity", "cb-cached", "cb-kind") and not has_cb:
+    if pattern in ("cb-identity", "cb-cached", "cb-kind", "cb-view") and not has_cb:
         res["applicable"] = False
         return res
     if pattern in ("kind", "raises"):
@@ -757,12 +780,33 @@ def _execute(ent: Entry, pattern: str, seed: int, sub: str = "same", protect: bo
             return res
         res["aliased"] = list(st.converted)
     reference = None
-    if pattern == "repeat":
+    if pattern in ("repeat", "edit"):
         # the answer on pristine, separately built arguments (same generator state)
         rng0 = _rng_for(ent.id, seed)
         np_seed = int(rng0.integers(0, 2**31 - 1))
         call0, kwargs0 = ent.build(rng0, level)
-        kwargs0 = _subst(dict(kwargs0), "", _State("rw", "same"))
+        st0 = _State("rw", "same")
+        kwargs0 = _subst(dict(kwargs0), "", st0)
+        if sub in ("float32", "longdouble"):
+            # extended / reduced precision arguments given directly: same objects, several calls
+            for kw_, ro_ in ((kwargs, st.always_ro), (kwargs0, st0.always_ro)):
+                st_k2 = _State("kind", sub)
+                st_k2.always_ro = ro_
+                _apply_kind(kw_, st_k2)
+                if kw_ is kwargs:
+                    st.converted = list(st_k2.converted)
+            if not st.converted:
+                res["applicable"] = False
+                return res
+            res["aliased"] = list(st.converted)
+
+        def _edit(kw_):
+            n_ = 0
+            for _par, _k, v_, _p in _array_slots(kw_, st if kw_ is kwargs else st0):
+                if v_.dtype.kind == "f" and v_.flags.writeable and v_.size:
+                    v_ *= v_.dtype.type(0.875)
+                    n_ += 1
+            return n_
     if pattern == "alias":
         _apply_alias(kwargs, st)
         if not st.aliased:
@@ -820,7 +864,30 @@ def _execute(ent: Entry, pattern: str, seed: int, sub: str = "same", protect: bo
         with warnings.catch_warnings():
             warnings.simplefilter("ignore")
             with np.errstate(all="ignore"):
-                if pattern == "repeat":
+                if pattern == "edit":
+                    def answer(c, kw):
+                        np.random.seed(np_seed)
+                        try:
+                            return ("ok", c(**kw))
+                        except (KeyboardInterrupt, _Timeout):
+                            raise
+                        except BaseException as e_:  # noqa: BLE001
+                            return ("raised", type(e_).__name__)
+                    answer(call, kwargs)                       # first request: whatever the library remembers now
+                    if not _edit(kwargs):
+                        res["applicable"] = False
+                    else:
+                        _edit(kwargs0)
+                        snaps = [_snap(a) for _, a in st.arrays]     # the edited contents are the reference from here on
+                        reference = answer(call0, kwargs0)
+                        got = answer(call, kwargs)
+                        if got[0] != reference[0] or (got[0] == "raised" and got[1] != reference[1]) \
+                                or (got[0] == "ok" and not _same(reference[1], got[1])):
+                            res["violations"].append({
+                                "argname": "edit", "object": "answer after the argument arrays were edited in place between two calls",
+                                "kind": "repeat-mismatch", "index": None,
+                                "before": _short(reference[1], 200), "after": _short(got[1], 200)})
+                elif pattern == "repeat":
                     def answer(c, kw):
                         np.random.seed(np_seed)
                         try:
@@ -876,8 +943,13 @@ def _execute(ent: Entry, pattern: str, seed: int, sub: str = "same", protect: bo
         if d:
             viol.append({"argname": p.split("[")[0].split(".")[0], "object": d[0], "kind": type(c).__name__,
                          "index": None, "before": _short(d[1]), "after": _short(d[2])})
+    for p, table in st.cb_bases:
+        d = _array_diff(table, st.cb_base_snaps[id(table)])
+        if d:
+            viol.append({"argname": "callback-result", "object": f"caller table a row of which callback {p} returned",
+                         "kind": "callback-result", **d})
     seen_cb = set()
-    for p, a, s in st.cb_records:
+    for p, a, s in (st.cb_records if pattern != "cb-view" else []):
         d = _array_diff(a, s)
         if d:
             k = p  # one report per callback and case
@@ -907,7 +979,9 @@ def _subs(pattern, ent):
     if pattern == "view":
         return ["row"] if ent.slow else ["row", "strided+lists"]
     if pattern == "kind":
-        return ["float32", "negstride-fortran"]
+        return ["float32", "negstride-fortran", "longdouble", "float16", "int"]
+    if pattern in ("repeat", "edit"):
+        return ["plain"] if ent.slow else ["plain", "float32", "longdouble"]
     solver = ent.module in ("ode", "poisson", "robust_poisson")
     if pattern == "raises":
         return ["truncate"] if (_QUICK and solver) else ["truncate", "nan"]
@@ -925,12 +999,12 @@ def _run_case(ent: Entry, pattern: str, seed: int, limit: float = 60.0):
     applicable = False
     subs = list(_subs(pattern, ent))
     thin = _QUICK and (zlib.crc32(ent.id.encode()) + seed) % 2 == 1   # quick budget: every other entry gets the short list
-    if _QUICK and pattern in ("view", "kind") and len(subs) > 1:
+    if _QUICK and pattern in ("view", "kind", "repeat", "edit") and len(subs) > 1:
         subs = [subs[(zlib.crc32(ent.id.encode()) + seed) % len(subs)]]
     if pattern == "raises":
         limit = min(limit, 0.75)    # a NaN can keep an adaptive solver busy for ever: the interruption is the "exception"
-    if pattern == "cb-kind" and _QUICK:
-        limit = min(limit, 1.5)     # a solver fed with rounded / complex right-hand sides may not converge
+    if pattern == "cb-kind":
+        limit = min(limit, 1.5 if _QUICK else 3.0)     # a solver fed with rounded / complex right-hand sides may not converge
     for sub in subs:
         r = _execute(ent, pattern, seed, sub, True, limit)
         if pattern in ("list", "int-array") and "@" not in sub and sub == subs[0] and 1 < r["nslots"] and not ent.slow and not thin:
@@ -1344,7 +1418,7 @@ def run(ctx, budget: str, flagged: set) -> None:
     flagged = set(flagged or ())
     closure = _module_deps()
     prio = {e.id: _priority(e, flagged, closure) for e in _ENTRIES}
-    order = sorted(range(len(_ENTRIES)), key=lambda i: (prio[_ENTRIES[i].id], i))
+    order = sorted(range(len(_ENTRIES)), key=lambda i: (prio[_ENTRIES[i].id], _ENTRIES[i].slow, i))   # cheap ones first
     if budget == "quick":
         plan = [(0, 0)]
         wall, limit = 55.0, 6.0
@@ -1352,8 +1426,13 @@ def run(ctx, budget: str, flagged: set) -> None:
         plan = [(0, 0), (0, 1), (1, 0), (1, 1)]
         wall, limit = 900.0, 60.0
     else:
+        # search after a broken tie: staged, cheapest and most relevant first, each stage with its own CPU budget;
+        # once a stage has produced a concrete failing input the later (less relevant) stages are not run
         plan = [(lv, r) for lv in (0, 1, 2) for r in (0, 1, 2)]
-        wall, limit = 1800.0, 90.0
+        wall, limit = 420.0, 20.0
+    stage_plan = {0: plan, 1: [(0, 1), (1, 0), (2, 2)], 2: [(0, 1), (1, 1)], 3: [(0, 1)]}
+    stage_cap = {0: 200.0, 1: 100.0, 2: 70.0, 3: 50.0 if flagged else 300.0}   # nothing flagged: one stage, every entry once
+    stage_start = {}
     reg = {
         "budget": budget, "entries": len(_ENTRIES), "entries_by_module": {},
         "cases": {p: 0 for p in PATTERNS}, "not_applicable": {p: 0 for p in PATTERNS},
@@ -1373,6 +1452,22 @@ def run(ctx, budget: str, flagged: set) -> None:
         if time.process_time() - c0 > wall:
             reg["skipped"][ent.id] = f"time budget of the {budget} run exhausted"
             continue
+        if budget == "large":
+            st_ = prio[ent.id]
+            if st_ not in stage_start:
+                stage_start[st_] = time.process_time()
+                reg.setdefault("stages", {})[str(st_)] = {"entries": 0, "cpu_s": 0.0}
+                if failing and st_ > 0:
+                    reg["stages"][str(st_)]["not_run"] = "an earlier stage already produced a concrete failing input"
+            if failing and st_ > 0 and min(stage_start, key=stage_start.get) != st_:
+                reg["skipped"][ent.id] = "large budget: an earlier stage already produced a concrete failing input"
+                continue
+            if time.process_time() - stage_start[st_] > stage_cap[st_]:
+                reg["skipped"][ent.id] = f"large budget: CPU budget of stage {st_} ({stage_cap[st_]:.0f} s) exhausted"
+                continue
+            plan = stage_plan[st_]
+            reg["stages"][str(st_)]["entries"] += 1
+            reg["stages"][str(st_)]["cpu_s"] = round(time.process_time() - stage_start[st_], 1)
         ran = False
         if failing.get(ent.name, 0) >= 3:
             reg["skipped"][ent.id] = "this entry point already has 3 violating cases in this run"
@@ -1380,8 +1475,10 @@ def run(ctx, budget: str, flagged: set) -> None:
         for level, rep in plan:
             seed = level * LEVEL_BASE + base + rep
             for pattern in PATTERNS:
+                if budget == "thorough" and level != rep and pattern in HEAVY_PATTERNS:
+                    continue     # the expensive patterns at two of the four (level, repetition) points of the thorough plan
                 if budget == "quick" and pattern not in ALWAYS_IN_QUICK \
-                        and (zlib.crc32(ent.id.encode()) + ctx.seed + PATTERNS.index(pattern)) % 2:
+                        and (zlib.crc32(ent.id.encode()) + ctx.seed + PATTERNS.index(pattern)) % (3 if pattern in ("edit", "repeat") else 2):
                     reg["thinned_in_quick"] += 1
                     continue
                 tp = time.process_time()
@@ -1495,6 +1592,7 @@ def _define_entries():
     _entries_rtransform_onedgrid()
     _entries_round3()
     _entries_round4()
+    _entries_round5()
 
 
 # ---- helpers ---------------------------------------------------------------
@@ -4348,6 +4446,422 @@ def _entries_round4():
         def _(rng, lv, n=n):
             kw = dict(points=_pts(rng, 3 - n, scale=2.0), centers_s=_pts(rng, n), coeffs_s=rng.uniform(0.1, 1, n), alphas_s=rng.uniform(0.3, 3, n))
             return (lambda **a: cmod.coulomb_potential(**a)), kw
+
+
+# ---- round 5: degenerate value patterns next to the alias patterns (callbacks), sizes past block
+# ---- boundaries, orders the code may assume, parameters independent of the data, shared state --------
+def _entries_round5():
+    import grid.coulomb as cmod
+    import grid.rtransform as rt
+    import grid.utils as umod
+    from grid.atomgrid import AtomGrid
+    from grid.basegrid import Grid, OneDGrid
+    from grid.becke import BeckeWeights
+    from grid.molgrid import MolGrid
+    from grid.ngrid import MultiDomainGrid
+    from grid.ode import solve_ode_bvp, solve_ode_ivp
+    from grid.onedgrid import GaussLegendre
+    from grid.periodicgrid import PeriodicGrid
+    from grid.poisson import interpolate_laplacian, solve_poisson_bvp, solve_poisson_ivp
+    from grid.robust_poisson import solve_poisson_robust
+
+    # ------------------------------------------------------------------------------------------
+    # (q) value patterns of the equation, for every entry point that takes callbacks: the alias
+    #     patterns (callback returns a cached array / its own argument / a row of a caller table) are
+    #     applied on top by the framework.  Coefficients: all lower ones zero (numbers, ints, an array,
+    #     callables, mixed), leading coefficient 1 / 2 / -0.5 / a function; a single lower term;
+    #     right-hand side: ordinary, zero, constant.
+    # ------------------------------------------------------------------------------------------
+    def zeros_like_arg(x):
+        return np.zeros_like(np.asarray(x, dtype=float))
+
+    def coeff_pattern(order, pat, lead):
+        leadc = CB(lambda x, lead=lead: lead + 0.0 * x)
+        if pat == "lower-zero-numbers":
+            return [0.0] * order + [lead]
+        if pat == "lower-zero-ints":
+            return [0] * order + [lead]
+        if pat == "lower-zero-array":
+            return np.array([0.0] * order + [lead])
+        if pat == "lower-zero-callables":
+            return [CB(zeros_like_arg) for _ in range(order)] + [leadc]
+        if pat == "lower-zero-mixed":
+            return [CB(zeros_like_arg) if i % 2 == 0 else 0.0 for i in range(order)] + [leadc]
+        if pat == "one-lower-term":
+            return [0.0] * (order - 1) + [0.75, lead]
+        if pat == "leading-function":
+            return [0.0] * order + [CB(lambda x: 2.0 + 0.25 * np.cos(x))]
+        raise KeyError(pat)
+
+    rhs_kinds = {"ordinary": lambda x: np.sin(x) + 1.0, "zero": zeros_like_arg, "constant": lambda x: np.full(np.shape(x), 0.5)}
+
+    for order in (1, 2, 3):
+        for pat in ("lower-zero-numbers", "lower-zero-ints", "lower-zero-array", "lower-zero-callables", "lower-zero-mixed",
+                    "one-lower-term", "leading-function"):
+            for tf in (False, True):
+                @entry("ode.solve_ode_ivp", f"order{order}-{pat}{'-transform' if tf else ''}")
+                def _(rng, lv, order=order, pat=pat, tf=tf):
+                    lead = float(rng.choice([1.0, 2.0, -0.5]))
+                    rk = str(rng.choice(sorted(rhs_kinds)))
+                    span = (-0.9, -0.1) if tf else (0.1, 0.8)
+                    kw = dict(x_span=span, fx=CB(rhs_kinds[rk]), coeffs=coeff_pattern(order, pat, lead),
+                              y0=[float(v) for v in rng.normal(size=order)], pts=RO(np.linspace(span[0] + 0.05, span[1] - 0.05, 3)))
+                    transform = rt.BeckeRTransform(0.05, 1.2) if tf else None
+
+                    def call(x_span, fx, coeffs, y0, pts):
+                        return solve_ode_ivp(x_span, fx, coeffs, y0, transform, method="RK45", rtol=1e-4, atol=1e-5)(pts)
+                    return call, kw
+
+                @entry("ode.solve_ode_bvp", f"order{order}-{pat}{'-transform' if tf else ''}")
+                def _(rng, lv, order=order, pat=pat, tf=tf):
+                    lead = float(rng.choice([1.0, 2.0, -0.5]))
+                    rk = str(rng.choice(sorted(rhs_kinds)))
+                    n = 8
+                    x = np.linspace(-0.9, 0.5, n) if tf else np.linspace(0.0, 1.5, n)
+                    kw = dict(x=x, fx=CB(rhs_kinds[rk]), coeffs=coeff_pattern(order, pat, lead),
+                              bd_cond=[[0, 0, 0.0], [1, 0, 1.0], [0, 1, 0.5]][:order], initial_guess_y=rng.normal(size=(order, n)))
+                    transform = rt.BeckeRTransform(0.05, 1.2) if tf else None
+
+                    def call(x, fx, coeffs, bd_cond, initial_guess_y):
+                        return solve_ode_bvp(x, fx, coeffs, bd_cond, transform, tol=1e-2, max_nodes=300, initial_guess_y=initial_guess_y)(x[1:-1])
+                    return call, kw
+
+    for kind in ("zero", "constant", "first-argument-column", "nonvectorized-zero"):
+        @entry("ngrid.MultiDomainGrid.integrate", f"integrand-{kind}")
+        def _(rng, lv, kind=kind):
+            def shape_of(x, y):
+                return np.broadcast(np.asarray(x)[..., 0], np.asarray(y)[..., 0]).shape
+
+            fn = {"zero": lambda x, y: np.zeros(shape_of(x, y)),
+                  "constant": lambda x, y: np.full(shape_of(x, y), 0.25),
+                  "first-argument-column": lambda x, y: (np.asarray(y)[..., 0] if np.ndim(y) > 1 else np.asarray(x)[..., 0]),
+                  "nonvectorized-zero": lambda x, y: 0.0}[kind]
+            gl = [Grid(_pts(rng, 4), _w(rng, 4)), Grid(_pts(rng, 5), _w(rng, 5))]
+            chunk = int(rng.choice([3, 7, 6000]))
+            nonvec = kind.startswith("nonvectorized")
+            return (lambda grid_list, integrand: MultiDomainGrid(grid_list).integrate(
+                integrand, non_vectorized=nonvec, integration_chunk_size=chunk)), dict(grid_list=gl, integrand=CB(fn))
+
+    for kind in ("zeros", "ones", "one-hot"):
+        @entry("molgrid.MolGrid.__init__", f"aim-callback-{kind}", covers=["molgrid.MolGrid.from_size"])
+        def _(rng, lv, kind=kind):
+            atnums, atcoords, atgrids = _mol(rng, lv)
+
+            def aim(points, atcoords, atnums, indices):
+                if kind == "zeros":
+                    return np.zeros(len(points))
+                if kind == "ones":
+                    return np.ones(len(points))
+                w = np.zeros(len(points))
+                w[: indices[1]] = 1.0
+                return w
+
+            def call(atnums, atgrids, aim_weights):
+                m = MolGrid(atnums, atgrids, aim_weights, store=True)
+                return m.weights, m.aim_weights, m.integrate(np.ones(m.size))
+            return call, dict(atnums=atnums, atgrids=atgrids, aim_weights=CB(aim))
+
+    def radial12():
+        btf = rt.BeckeRTransform(1e-4, 1.5)
+        g = btf.transform_1d_grid(GaussLegendre(12))
+        return OneDGrid(np.array(g.points), np.array(g.weights), (0, np.inf)), btf
+
+    for kind in ("zero-density", "one-shell-density", "constant-density"):
+        for route in ("bvp", "ivp", "laplacian", "robust"):
+            @entry({"bvp": "poisson.solve_poisson_bvp", "ivp": "poisson.solve_poisson_ivp", "laplacian": "poisson.interpolate_laplacian",
+                    "robust": "robust_poisson.solve_poisson_robust"}[route], f"atomgrid-{kind}")
+            def _(rng, lv, kind=kind, route=route):
+                rgrid, btf = radial12()
+                center = rng.normal(0, 0.1, 3)
+                kw = dict(rgrid=rgrid, degrees=[3], center=center)
+                probe = AtomGrid(copy.deepcopy(rgrid), degrees=[3], center=center.copy())
+                fv = np.zeros(probe.size)
+                if kind == "one-shell-density":
+                    fv[probe.indices[5]:probe.indices[6]] = 1.0
+                elif kind == "constant-density":
+                    fv[:] = 0.5
+                kw.update(fv=fv, pts=RO(np.vstack([center, center + _pts(rng, 2, scale=0.8)])), ode_params={"tol": 1e-3, "max_nodes": 5000})
+                tf = rt.InverseRTransform(btf)
+
+                def call(rgrid, degrees, center, fv, pts, ode_params):
+                    g = AtomGrid(rgrid, degrees=degrees, center=center)
+                    if route == "bvp":
+                        return solve_poisson_bvp(g, fv, tf, include_origin=True, ode_params=ode_params)(pts)
+                    if route == "ivp":
+                        return solve_poisson_ivp(g, fv, tf, r_interval=(20.0, 1e-2), ode_params={"rtol": 1e-4, "atol": 1e-4})(pts)
+                    if route == "laplacian":
+                        return interpolate_laplacian(g, fv)(pts)
+                    return solve_poisson_robust(g, np.abs(fv), tf, np.array([1]), center.reshape(1, 3), ode_params=ode_params,
+                                                include_origin=True)(pts)
+                return call, kw
+
+    # ------------------------------------------------------------------------------------------
+    # (r) class 21: argument arrays past block / chunk boundaries on the cheapest objects
+    # ------------------------------------------------------------------------------------------
+    def big_sizes(lv):
+        return [1025, 4097] if lv == 0 else ([20001, 65537] if lv == 1 else [31234, 2**19 + 1])
+
+    for which in (0, 1):
+        @entry("basegrid.Grid.integrate", f"past-block-boundary-{which}", covers=["basegrid.Grid.__getitem__", "basegrid.Grid.get_localgrid"])
+        def _(rng, lv, which=which):
+            n = big_sizes(lv)[which]
+            kw = dict(points=_pts(rng, n), weights=_w(rng, n), a=rng.normal(size=n), b=rng.normal(size=n), idx=rng.integers(0, n, n // 3 + 1),
+                      center=np.zeros(3))
+
+            def call(points, weights, a, b, idx, center):
+                g = Grid(points, weights)
+                whole = g.integrate(a, b)
+                parts = Grid(points[: n // 2], weights[: n // 2]).integrate(a[: n // 2], b[: n // 2]) + \
+                    Grid(points[n // 2:], weights[n // 2:]).integrate(a[n // 2:], b[n // 2:])
+                tol = 1e-9 if min(a_.dtype.itemsize for a_ in (points, weights, a, b)) >= 8 else 2e-2
+                if not np.isclose(whole, parts, rtol=tol, atol=tol, equal_nan=True):
+                    raise Mismatch(f"integrate over {n} points is not the sum over a split: {whole} vs {parts}")
+                return g[idx].points, g.get_localgrid(center, 0.3).indices
+            return call, kw
+
+        @entry("rtransform.BaseTransform.deriv", f"past-block-boundary-{which}")
+        def _(rng, lv, which=which):
+            n = big_sizes(lv)[which]
+            tfs = [rt.BeckeRTransform(0.01, 1.3), rt.KnowlesRTransform(0.01, 1.2, 2), rt.HandyModRTransform(0.01, 10.0, 2)]
+
+            def call(x):
+                for tf in tfs:
+                    for m in ("transform", "deriv", "deriv2", "deriv3"):
+                        whole = getattr(tf, m)(x)
+                        if not _same(whole, np.concatenate([getattr(tf, m)(x[:1000]), getattr(tf, m)(x[1000:])])):
+                            raise Mismatch(f"{type(tf).__name__}.{m} on {n} nodes differs from the evaluation in two pieces")
+                    r = tf.transform(x)
+                    tf.inverse(r), tf.deriv_inverse(r)
+            return call, dict(x=np.sort(rng.uniform(-0.95, 0.95, n)))
+
+        @entry("coulomb.coulomb_potential", f"past-block-boundary-{which}", covers=["coulomb.coulomb_gaussian_s", "coulomb.coulomb_gaussian_p"])
+        def _(rng, lv, which=which):
+            n = big_sizes(lv)[which]
+            k = 3
+            kw = dict(points=_pts(rng, n, scale=2.0), centers=_pts(rng, k), coeffs=rng.uniform(0.1, 1, k), alphas=rng.uniform(0.3, 3, k),
+                      r=rng.uniform(0.0, 3.0, n))
+
+            def call(points, centers, coeffs, alphas, r):
+                whole = cmod.coulomb_potential(points, centers, coeffs, alphas, centers, coeffs, alphas)
+                pieces = np.concatenate([cmod.coulomb_potential(p_, centers, coeffs, alphas, centers, coeffs, alphas)
+                                         for p_ in (points[:777], points[777:])])
+                if not _same(whole, pieces):
+                    raise Mismatch(f"coulomb_potential on {n} points differs from the evaluation in two pieces")
+                return cmod.coulomb_gaussian_s(r, 1.3), cmod.coulomb_gaussian_p(r, 0.7)
+            return call, kw
+
+        @entry("utils.generate_real_spherical_harmonics", f"past-block-boundary-{which}",
+               covers=["utils.convert_cart_to_sph", "utils.solid_harmonics", "utils.generate_derivative_real_spherical_harmonics"])
+        def _(rng, lv, which=which):
+            n = big_sizes(min(lv, 1))[which]
+            kw = dict(points=_pts(rng, n), center=rng.normal(size=3))
+
+            def call(points, center):
+                sph = umod.convert_cart_to_sph(points, center)
+                y = umod.generate_real_spherical_harmonics(2, sph[:, 1], sph[:, 2])
+                y2 = np.hstack([umod.generate_real_spherical_harmonics(2, sph[:900, 1], sph[:900, 2]),
+                                umod.generate_real_spherical_harmonics(2, sph[900:, 1], sph[900:, 2])])
+                if not _same(y, y2):
+                    raise Mismatch(f"spherical harmonics on {n} angles differ from the evaluation in two pieces")
+                return umod.solid_harmonics(2, sph), umod.generate_derivative_real_spherical_harmonics(1, sph[:, 1], sph[:, 2])
+            return call, kw
+
+    @entry("becke.BeckeWeights.__call__", "past-block-boundary")
+    def _(rng, lv):
+        n = 1025 if lv == 0 else 4097
+        atcoords = np.array([[0.0, 0.0, -0.7], [0.0, 0.0, 0.7]])
+        kw = dict(points=_pts(rng, 2 * n + 1, scale=1.5), atcoords=atcoords, atnums=np.array([1, 8]), indices=np.array([0, n, 2 * n + 1]))
+        return (lambda points, atcoords, atnums, indices: BeckeWeights()(points, atcoords, atnums, indices)), kw
+
+    @entry("ngrid.MultiDomainGrid.integrate", "product-past-the-chunk-size")
+    def _(rng, lv):
+        gl = [Grid(_pts(rng, 79), _w(rng, 79)), Grid(_pts(rng, 77), _w(rng, 77))]      # 6083 pairs, chunk 6000 / 1000
+        chunk = int(rng.choice([6000, 1000]))
+        fn = lambda x, y: np.exp(-np.sum(x**2, axis=-1)) * np.exp(-np.sum((x - y) ** 2, axis=-1))   # noqa: E731
+        return (lambda grid_list, integrand: MultiDomainGrid(grid_list).integrate(integrand, integration_chunk_size=chunk)), dict(
+            grid_list=gl, integrand=CB(fn))
+
+    @entry("atomgrid.AtomGrid.interpolate", "evaluation-points-past-block-boundary")
+    def _(rng, lv):
+        n = 1025 if lv == 0 else 4097
+        kw = dict(rgrid=_oned(rng, 5), degrees=[5], center=rng.normal(0, 0.3, 3))
+        size = AtomGrid(copy.deepcopy(kw["rgrid"]), degrees=[5]).size
+        kw.update(fv=rng.normal(size=size), pts=_pts(rng, n))
+
+        def call(rgrid, degrees, center, fv, pts):
+            f = AtomGrid(rgrid, degrees=degrees, center=center).interpolate(fv)
+            whole = f(pts)
+            if not _same(whole, np.concatenate([f(pts[:600]), f(pts[600:])])):
+                raise Mismatch(f"interpolation at {n} points differs from the evaluation in two pieces")
+            return f(pts, deriv=1)
+        return call, kw
+
+    # ------------------------------------------------------------------------------------------
+    # (s) class 22: inputs in an order the code may silently assume (a library that sorts must sort a copy)
+    # ------------------------------------------------------------------------------------------
+    for order_ in ("descending", "shuffled"):
+        def reorder(a, rng, order_=order_):
+            return np.array(a[::-1]) if order_ == "descending" else np.array(a[rng.permutation(len(a))])
+
+        @entry("rtransform.BaseTransform.transform_1d_grid", f"{order_}-nodes", covers=["rtransform.BeckeRTransform.transform"])
+        def _(rng, lv, reorder=reorder):
+            n = 7 + 4 * lv
+            x = reorder(np.sort(rng.uniform(-0.9, 0.9, n)), rng)
+            tfs = [rt.BeckeRTransform(0.01, 1.3), rt.MultiExpRTransform(0.01, 1.2), rt.LinearFiniteRTransform(0.1, 3.0)]
+
+            def call(x, oned_grid):
+                out = []
+                for tf in tfs:
+                    out += [tf.transform(x), tf.deriv(x), tf.inverse(tf.transform(x))]
+                    g = tf.transform_1d_grid(oned_grid)
+                    out += [g.points, g.weights]
+                return out
+            return call, dict(x=x, oned_grid=OneDGrid(np.array(x), _w(rng, n), (-1, 1)))
+
+        @entry("atomgrid.AtomGrid.__init__", f"{order_}-radial-grid",
+               covers=["atomgrid.AtomGrid.interpolate", "atomgrid.AtomGrid.spherical_average", "atomgrid.AtomGrid.from_pruned"])
+        def _(rng, lv, reorder=reorder):
+            n = 5 + 2 * lv
+            perm = np.arange(n)[::-1] if reorder(np.arange(3), rng)[0] == 2 and True else rng.permutation(n)
+            r = (np.sort(rng.uniform(0.05, 3.0, n)) + np.arange(n) * 0.05)[perm]
+            kw = dict(rgrid=OneDGrid(r, _w(rng, n), (0, np.inf)), degrees=[int(d) for d in rng.choice([3, 5, 7], size=n)], center=rng.normal(0, 0.3, 3),
+                      r_sectors=reorder(np.array([0.3, 0.8, 1.5]), rng), d_sectors=[7, 3, 5, 4])
+            kw["pts"] = RO(_pts(rng, 3))
+
+            def call(rgrid, degrees, center, r_sectors, d_sectors, pts):
+                g = AtomGrid(rgrid, degrees=degrees, center=center)
+                fv = np.ones(g.size)
+                out = [g.points, g.integrate(fv), g.integrate_angular_coordinates(fv)]
+                for step in (lambda: g.interpolate(fv)(pts), lambda: g.spherical_average(fv)(np.array([0.5, 1.0])),
+                             lambda: AtomGrid.from_pruned(rgrid, 1.0, r_sectors=r_sectors, d_sectors=d_sectors, center=center).degrees):
+                    try:
+                        out.append(step())
+                    except ValueError:
+                        pass          # an order the library refuses is a legitimate answer
+                return out
+            return call, kw
+
+        @entry("atomgrid.AtomGrid.interpolate", f"{order_}-evaluation-points", covers=["molgrid.MolGrid.interpolate", "basegrid.Grid.get_localgrid"])
+        def _(rng, lv, reorder=reorder):
+            kw = dict(rgrid=_oned(rng, 5), degrees=[5], center=rng.normal(0, 0.3, 3))
+            size = AtomGrid(copy.deepcopy(kw["rgrid"]), degrees=[5]).size
+            base_pts = kw["center"] + np.outer(np.linspace(0.1, 2.0, 9), [0.6, 0.0, 0.8])      # increasing radii
+            kw.update(fv=rng.normal(size=size), pts=reorder(base_pts, rng))
+
+            def call(rgrid, degrees, center, fv, pts):
+                g = AtomGrid(rgrid, degrees=degrees, center=center)
+                f = g.interpolate(fv)
+                each = np.array([f(p_[None, :])[0] for p_ in pts])
+                if not _same(f(pts), each):
+                    raise Mismatch("interpolation at reordered points differs from the point-by-point evaluation")
+                return g.get_localgrid(pts[0], 1.0).indices
+            return call, kw
+
+    @entry("rtransform.BaseTransform.transform_1d_grid", "descending-grid-made-by-the-library-fed-back")
+    def _(rng, lv):
+        n = 7 + 4 * lv
+        desc = rt.InverseRTransform(rt.BeckeRTransform(0.01, 1.3))       # maps increasing r to increasing x; its inverse use below reverses
+        x = np.sort(rng.uniform(-0.9, 0.9, n))
+        g1 = rt.MultiExpRTransform(0.01, 1.2).transform_1d_grid(OneDGrid(x, _w(rng, n), (-1, 1)))
+        kw = dict(rgrid=OneDGrid(np.array(g1.points), np.array(g1.weights), (0.01, np.inf)), center=np.zeros(3))
+
+        def call(rgrid, center):
+            g = AtomGrid(rgrid, degrees=[3], center=center)
+            t = desc.transform_1d_grid(rgrid) if rgrid.points.min() >= 0.01 else None
+            return g.points, g.integrate(np.ones(g.size)), None if t is None else t.points
+        return call, kw
+
+    # ------------------------------------------------------------------------------------------
+    # (t) class 24: explicit parameters on any grid of the domain; one transform object for two grids
+    # ------------------------------------------------------------------------------------------
+    for cname in ("ExpRTransform", "PowerRTransform", "LinearInfiniteRTransform", "HyperbolicRTransform"):
+        @entry(f"rtransform.{cname}.transform", "explicit-b-nodes-beyond-it")
+        def _(rng, lv, cname=cname):
+            b = 6.0
+            tf = getattr(rt, cname)(0.1, 8.0, b=b) if cname != "HyperbolicRTransform" else rt.HyperbolicRTransform(0.05, 0.12)
+            x = np.array([0.0, 1e-12, 0.5, b - 1e-9, b, b + 1e-9, b + 3.0, 2 * b])
+
+            def call(x):
+                out = []
+                for m in ("transform", "deriv", "deriv2", "deriv3"):
+                    try:
+                        out.append(getattr(tf, m)(x))
+                    except (ValueError, ZeroDivisionError):
+                        pass
+                return out
+            return call, dict(x=x)
+
+        if cname != "HyperbolicRTransform":
+            @entry(f"rtransform.{cname}.set_maximum_parameter_b", "one-transform-two-grids-in-sequence")
+            def _(rng, lv, cname=cname):
+                n1, n2 = 6 + 3 * lv, 11 + 3 * lv
+                g1 = OneDGrid(np.arange(n1, dtype=float), np.ones(n1), (0.0, float(n1 - 1)))
+                g2 = OneDGrid(np.arange(n2, dtype=float) * 0.5, np.ones(n2), (0.0, float(n2 - 1) * 0.5))
+
+                def call(grid_a, grid_b):
+                    tf = getattr(rt, cname)(0.1, 8.0)
+                    first = tf.transform_1d_grid(grid_a)
+                    a0 = (np.array(first.points), np.array(first.weights))
+                    try:
+                        tf.transform_1d_grid(grid_b)
+                    except ValueError:
+                        pass
+                    again = tf.transform_1d_grid(grid_a)
+                    if not (_same(again.points, a0[0]) and _same(again.weights, a0[1]) and _same(first.points, a0[0])):
+                        raise Mismatch(f"{cname}: the grid made from the first 1D grid changed after the transform was applied to a second one")
+                    return tf.b
+                return call, dict(grid_a=g1, grid_b=g2)
+
+    # ------------------------------------------------------------------------------------------
+    # (u) class 26: two instances that share set-up objects of the caller, used in either order
+    # ------------------------------------------------------------------------------------------
+    for first in ("with-origin-node-first", "without-origin-node-first"):
+        @entry("atomgrid.AtomGrid.spherical_average", f"two-grids-sharing-degrees-{first}",
+               covers=["atomgrid.AtomGrid.radial_component_splines", "atomgrid.AtomGrid.integrate_angular_coordinates"])
+        def _(rng, lv, first=first):
+            n = 4 + 2 * lv
+            r1 = np.sort(rng.uniform(0.05, 3.0, n)) + np.arange(n) * 0.05
+            r0 = r1.copy()
+            r0[0] = 0.0
+            w = _w(rng, n)
+            kw = dict(rgrid_a=OneDGrid(r0, w, (0, np.inf)), rgrid_b=OneDGrid(r1, w, (0, np.inf)), degrees=np.array([3, 5, 7, 5, 3, 7, 5, 3][:n]),
+                      center=rng.normal(0, 0.3, 3), r=RO(np.array([0.0, 0.5, 1.0])))
+
+            def answers(g, r):
+                fv = np.cos(np.arange(g.size))
+                return [g.integrate_angular_coordinates(fv), g.spherical_average(fv)(r), [s_(r) for s_ in g.radial_component_splines(fv)]]
+
+            def call(rgrid_a, rgrid_b, degrees, center, r):
+                alone = answers(AtomGrid(copy.deepcopy(rgrid_a), degrees=np.array(degrees), center=center.copy()), r)
+                ga = AtomGrid(rgrid_a, degrees=degrees, center=center)
+                gb = AtomGrid(rgrid_b, degrees=degrees, center=center)      # same weights array, same degrees array, same centre
+                seq = [gb, ga] if first.startswith("without") else [ga, gb]
+                got = {id(g): answers(g, r) for g in seq}
+                got2 = answers(ga, r)
+                if not (_same(got[id(ga)], alone) and _same(got2, alone)):
+                    raise Mismatch("an atomic grid gives other answers when a second grid sharing its weights / degrees / centre arrays is used")
+            return call, kw
+
+    for first in ("a-first", "b-first"):
+        @entry("periodicgrid.PeriodicGrid.get_localgrid", f"two-cells-of-one-shape-{first}")
+        def _(rng, lv, first=first):
+            n = 10 + 6 * lv
+            kw = dict(points=rng.uniform(-1.5, 2.5, (n, 3)), weights=_w(rng, n), cell_a=np.eye(3) * rng.uniform(0.8, 1.5, 3),
+                      cell_b=np.eye(3) * rng.uniform(1.6, 2.2, 3), center=rng.uniform(-1, 1, 3))
+
+            def call(points, weights, cell_a, cell_b, center):
+                alone = PeriodicGrid(np.array(points), np.array(weights), np.array(cell_a), wrap=True).get_localgrid(np.array(center), 0.9)
+                alone = (np.array(alone.points), np.array(alone.weights), np.array(alone.indices))
+                ga = PeriodicGrid(points, weights, cell_a, wrap=True)
+                gb = PeriodicGrid(points, weights, cell_b, wrap=True)
+                for g in ([ga, gb] if first == "a-first" else [gb, ga]):
+                    lg = g.get_localgrid(center, 0.9)
+                    if g is ga:
+                        mine = (lg.points, lg.weights, lg.indices)
+                lg2 = ga.get_localgrid(center, 0.9)
+                if not (_same(mine, alone) and _same((lg2.points, lg2.weights, lg2.indices), alone)):
+                    raise Mismatch("a periodic grid gives another local grid when a grid with another cell is built from the same arrays")
+            return call, kw
 
 
 if __name__ == "__main__":
